@@ -83,10 +83,12 @@ def generate(rng, tier):
 def impl(line):
     if line.startswith("const"):
         from space_packet_parser import packets
+        # live constants, where the module still has them in this place and form (otherwise: nothing to compare)
         if line == "const hdrlen":
-            return f"ok {packets.RawPacketData.HEADER_LENGTH_BYTES}"
+            h = getattr(packets.RawPacketData, "HEADER_LENGTH_BYTES", None)
+            return "n/a" if not isinstance(h, int) else f"ok {h}"
         c = [k for k in packets.ccsds_generator.__code__.co_consts if type(k) is int and k > 1_000_000]
-        return f"ok {c[0] if len(c) == 1 else c}"
+        return f"ok {c[0]}" if len(c) == 1 else "n/a"
     return pu.run_frame(line)
 
 
